@@ -114,6 +114,8 @@ def _front_case(draw, unique=True):
             s["meta"] = {"m": d.int(0, 9)}
     _unique_names(spec, unique)
     spec["_grouping"] = d.pick(["separate", "left", "right", "right", "mixed"])
+    spec["_bsplit"] = d.pick(["none", "tail", "tail", "all"])      # builder: candidates declared via .transition()
+    spec["_bsplit_list"] = d.chance(50)
     from ..render import finalize
 
     finalize(spec)
@@ -150,6 +152,8 @@ def _disc_case(draw):
         "omit": draw(st.sampled_from([None, None, "action", "guard", "service"])),
         "place": draw(st.sampled_from(["transition", "entry", "choose", "invoke-handler", "always"])),
         "composite": draw(st.sampled_from([0, 0, 1, 2, 3])),
+        # how the methods of a MachineLogic subclass / provider object are declared
+        "method_kind": draw(st.sampled_from(["instance", "instance", "static", "inherited", "mixin"])),
     }
 
 
@@ -341,9 +345,43 @@ def build_builder(spec, logic):
     if cfg.get("context") is not None:
         b.context(cfg["context"])
     root = sp["root"]
+    later = []
     for c in root.get("children", []):
         cc = cfg["states"][c["key"]]
-        trans_on = cc.get("on", {})
+        trans_on = dict(cc.get("on", {}))
+        # some candidates are declared through MachineBuilder.transition() instead of the state's own `on` table: the
+        # trailing candidate(s) of an event's list, when they use nothing but what transition() can say (bare-name
+        # target, named guard, named actions, reenter). build() appends them to the list declared on the state.
+        split = spec.get("_bsplit", "none")
+        if split != "none":
+            for ev in list(trans_on):
+                if ev == "" or trans_on[ev] is None:
+                    continue
+                cands = trans_on[ev] if isinstance(trans_on[ev], list) else [trans_on[ev]]
+                cands = [({"target": x} if isinstance(x, str) else x) for x in cands]
+                if not all(isinstance(x, dict) for x in cands):
+                    continue
+                n_tail = 0
+                for x in reversed(cands):
+                    g_ = x.get("guard", x.get("cond"))
+                    ok = (set(x) <= {"target", "guard", "cond", "actions", "reenter"} and (g_ is None or isinstance(g_, str))
+                          and (x.get("target") is None or isinstance(x.get("target"), str))
+                          and all(isinstance(a_, str) for a_ in (x.get("actions") or [])) and isinstance(x.get("actions") or [], list))
+                    if not ok:
+                        break
+                    n_tail += 1
+                    if split == "tail":
+                        break
+                if n_tail == 0:
+                    continue
+                head, tail = cands[:len(cands) - n_tail], cands[len(cands) - n_tail:]
+                if head:
+                    trans_on[ev] = head if (len(head) > 1 or spec.get("_bsplit_list")) else head[0]
+                else:
+                    del trans_on[ev]
+                for x in tail:
+                    later.append(dict(source=c["key"], event=ev, target=x.get("target") or c["key"], guard=x.get("guard", x.get("cond")),
+                                      actions=list(x.get("actions") or []) or None, reenter=bool(x.get("reenter")), internal=x.get("target") is None))
         b.state(c["key"], initial=root.get("initial") == c["key"], final=c["kind"] == "final", parallel=c["kind"] == "parallel",
                 entry=cc.get("entry"), exit=cc.get("exit"), after=cc.get("after"), on_done=cc.get("onDone"),
                 always=cc.get("always"), history=c.get("hist") if c["kind"] == "history" else None, tags=cc.get("tags"),
@@ -357,6 +395,8 @@ def build_builder(spec, logic):
         rootprops.setdefault("on", {})[""] = rootprops.pop("always")
     if rootprops:
         b.root(**rootprops)
+    for t_ in later:
+        b.transition(t_.pop("source"), t_.pop("event"), t_.pop("target"), **t_)
     for n, f in logic.actions.items():
         b.action(n, f)
     for n, f in logic.guards.items():
@@ -536,6 +576,14 @@ def check_disc(case, res: CaseResult):
                 return lambda self, interpreter, context, event: f(interpreter, context, event)
             return lambda self, interpreter, context, event, action_def: f(interpreter, context, event, action_def)
 
+        mkind = case.get("method_kind", "instance")
+        if mkind == "static":
+            def wrap(f, arity):  # noqa: F811
+                if arity == 2:
+                    return staticmethod(lambda context, event: f(context, event))
+                if arity == 3:
+                    return staticmethod(lambda interpreter, context, event: f(interpreter, context, event))
+                return staticmethod(lambda interpreter, context, event, action_def: f(interpreter, context, event, action_def))
         ns = {}
         for a in acts:
             if implname(a) in fns:
@@ -546,10 +594,15 @@ def check_disc(case, res: CaseResult):
         for s in services:
             if implname(s) in fns:
                 ns[implname(s)] = wrap(fns[implname(s)], 3)
-        kw["logic"] = type("GenLogic", (MachineLogic,), ns)()
+        if mkind == "inherited":    # declared on a base class of the class that is instantiated
+            kw["logic"] = type("GenLogic", (type("GenLogicBase", (MachineLogic,), ns),), {})()
+        elif mkind == "mixin":      # declared on a plain mixin next to MachineLogic
+            kw["logic"] = type("GenLogic", (type("GenLogicMixin", (), ns), MachineLogic), {})()
+        else:
+            kw["logic"] = type("GenLogic", (MachineLogic,), ns)()
     builtin_names = {"log", "assign"}
     is_builtin_act = lambda n: n in builtin_names  # noqa
-    shape = f"{case['source']}|{place}"
+    shape = f"{case['source']}|{place}" + (f"|{case.get('method_kind')}-methods" if case["source"] == "subclass" and case.get("method_kind", "instance") != "instance" else "")
     other_casing = case["config_casing"] != case["impl_casing"]
     res.nontrivial = other_casing or any(a in builtin_names for a in acts) or "stateIn" in guards
     # the MachineLogic-subclass style registers methods under their own names only
